@@ -21,6 +21,7 @@ size_t small_len(Rng &r) {
     if (c < 55) return r.below(41);
     if (c < 85) return r.below(130);
     if (c < 98) return r.below(700);
+    if (r.chance(1, 40)) return 60000 + r.below(12000);   // rarely: past any 16-bit length corner
     return 1000 + r.below(7500);
 }
 
@@ -66,7 +67,7 @@ Op gen_hash(Ctx &c, GHash &g, int obj, bool erase_bias) {
     case H_INIT: case H_REINIT: g.st = ST_LIVE; g.len = 0; break;
     case H_UPDATE:
         o.a = hash_update_len(r, g.len);
-        if (g.len + o.a > 9000) o.a = r.below(20);
+        if (g.len + o.a > 9000 && o.a < 60000) o.a = r.below(20);
         o.b = r.below(8);
         if (o.a == 0 && r.chance(1, 2)) o.flags |= F_NULLPTR;
         g.len += o.a;
